@@ -1050,7 +1050,11 @@ class H2Stream:
             events[0].stream_ended = es_events[0]
             events += es_events
 
-        self._initialize_content_length(headers)
+        # Only the final header block of a message announces its body length:
+        # informational responses and trailers do not.
+        if not isinstance(
+                events[0], (InformationalResponseReceived, TrailersReceived)):
+            self._initialize_content_length(headers)
 
         if isinstance(events[0], TrailersReceived):
             if not end_stream:
